@@ -365,6 +365,11 @@ def verify_unit(unit, gen_text, timeout=1500):
                 e["shard"] = i
                 res["errors"].append(e)
     ext = ((res.get("report") or {}).get("annotator") or {}).get("external") or []
+    e13 = ((res.get("report") or {}).get("extraction") or {}).get("E13_rewritten_fns") or []
+    if e13:
+        # E13 functions are verified, but the frame of an abandoned alternative is assumed at every
+        # set_state call: the bounded stand-in keeps running for them
+        ext = list(ext) + ["%s (verified under E13; frame of abandoned alternatives assumed)" % f for f in e13]
     rejected = res["status"] in ("front_end_error", "verus_failed")
     if rejected:
         # the verifier could not ingest the extracted text at all: nothing is proved for this unit; the
@@ -391,6 +396,14 @@ def verify_unit(unit, gen_text, timeout=1500):
                 res["bounded"] = b
         except Exception as e:
             res["bounded"] = {"status": "harness_failed", "detail": "%s: %s" % (type(e).__name__, e), "functions": ext}
+    if e13 and res["status"] == "ok":
+        # bounded cross-check of the E13 rewrite itself: emitted text vs. the same text with only E13
+        # applied, both compiled natively, identical trees and diagnostics on every short input
+        try:
+            import e13check
+            res["e13"] = e13check.run(gen_text, d)
+        except Exception as e:
+            res["e13"] = {"status": "error", "detail": "%s: %s" % (type(e).__name__, e)}
     if res["status"] == "ok":
         os.makedirs(RESULTS, exist_ok=True)
         tmp = cpath + ".tmp%d" % os.getpid()
